@@ -8,31 +8,53 @@ CONSTANTS Sigma,      \* alphabet (set of code points)
           MaxLen,     \* subjects up to this length
           Level,      \* 1: all SREs of depth <= 1;  2: depth <= 2 with one atomic operand in binary nodes;  3: all of depth <= 2;
                       \* 4: (seq|or)(unary(seq(atom, atom)), atom) and mirrored
-          Fam         \* "full" | "anchor" | "case" : which atoms / operators are used
+          Fam         \* "full" | "anchor" | "case" | "named" : which atoms / operators are used
 VARIABLES r, s
 vars == <<r, s>>
 
 SomeTwo == CHOOSE T \in SUBSET Sigma : Cardinality(T) = (IF Cardinality(Sigma) >= 2 THEN 2 ELSE 1)
 Lo == CHOOSE c \in Sigma : \A d \in Sigma : c <= d
 \* (UNION of a set of sets, not nested \cup: TLC's binary union searches linearly)
+XS == <<"set", {97, 49, 32, 33}>>     \* a letter, a digit, a blank, a punctuation mark: every class misses one of them
+YS == <<"lit", 43>>
 AtomsOf ==
+   IF Fam = "named" THEN UNION { {<<"cls", n>> : n \in ClassNames}, {<<"lit", 97>>, XS, <<"nonl">>} }
+   ELSE
    UNION { {<<"lit", c>> : c \in Sigma}, {<<"any">>, <<"eps">>},
            IF Fam = "full" THEN {<<"set", SomeTwo>>, <<"nset", {Lo}>>, <<"range", Lo, Lo + 1>>, <<"empty">>, <<"bol">>, <<"eol">>}
            ELSE IF Fam = "anchor" THEN {<<"bol">>, <<"eol">>, <<"nset", {NL}>>}
            ELSE {<<"set", SomeTwo>>, <<"range", Lo, Lo + 1>>} }
-Reps == IF Fam = "case" THEN {} ELSE {<<0, 2>>, <<2, 2>>, <<1, -1>>, <<1, 2>>, <<0, 0>>}
-UnTags == IF Fam = "case" THEN {"star", "plus", "opt", "sub", "nocase"} ELSE {"star", "plus", "opt", "sub"}
+Reps == IF Fam \in {"case", "named"} THEN {} ELSE {<<0, 2>>, <<2, 2>>, <<1, -1>>, <<1, 2>>, <<0, 0>>}
+UnTags == IF Fam = "case" THEN {"star", "plus", "opt", "sub", "nocase"}
+          ELSE IF Fam = "named" THEN {"star", "sub", "nocase", "ascii", "ccompl", "cnocase", "cascii"}
+          ELSE {"star", "plus", "opt", "sub"}
+BinTags == IF Fam = "named" THEN {"seq", "or", "cor", "cand", "cdiff"} ELSE {"seq", "or"}
 Unary(R) == UNION { {<<t, x>> : t \in UnTags, x \in R}, {<<"rep", mn[1], mn[2], x>> : mn \in Reps, x \in R} }
-Binary(R1, R2) == {<<t, x, y>> : t \in {"seq", "or"}, x \in R1, y \in R2}
+Binary(R1, R2) == {<<t, x, y>> : t \in BinTags, x \in R1, y \in R2}
+\* level 5: every combination form with a named class as first / middle / last member (and the class alone)
+Comb(n) ==
+   LET N == <<"cls", n>> IN
+   UNION { {N},
+           UNION { {<<t, N, XS>>, <<t, XS, N>>, <<t, <<t, N, XS>>, YS>>, <<t, <<t, XS, N>>, YS>>, <<t, <<t, XS, YS>>, N>>}
+                   : t \in {"cor", "cand", "cdiff", "or"} },
+           {<<"ccompl", N>>, <<"ccompl", <<"cor", N, XS>>>>, <<"ccompl", <<"cor", XS, N>>>>,
+            <<"cnocase", N>>, <<"cnocase", <<"cor", N, XS>>>>, <<"cnocase", <<"cor", XS, N>>>>,
+            <<"cascii", N>>, <<"cascii", <<"cor", N, XS>>>>, <<"cascii", <<"cor", XS, N>>>>, <<"cascii", <<"cand", N, XS>>>>,
+            <<"nocase", N>>, <<"nocase", <<"or", N, XS>>>>, <<"nocase", <<"or", XS, N>>>>,
+            <<"ascii", N>>, <<"ascii", <<"or", N, XS>>>>, <<"ascii", <<"or", XS, N>>>>,
+            <<"cor", <<"cnocase", N>>, XS>>, <<"cor", XS, <<"cascii", N>>>>, <<"cand", <<"cascii", N>>, XS>>,
+            <<"star", <<"or", N, XS>>>>, <<"seq", <<"or", N, XS>>, N>>} }
 \* only the requested level is ever built (LET definitions are evaluated on demand)
-SREs == LET l0 == AtomsOf
-            l1 == UNION {l0, Unary(l0), Binary(l0, l0)}
-        IN  IF Level = 0 THEN l0
-            ELSE IF Level = 1 THEN l1
-            ELSE IF Level = 2 THEN UNION {l1, Unary(l1), Binary(l1, l0), Binary(l0, l1)}
-            ELSE IF Level = 3 THEN UNION {l1, Unary(l1), Binary(l1, l1)}
-            \* level 4: a unary operator over a two-element sequence, next to an atom (the "(op a b)" spellings)
-            ELSE LET us == Unary({<<"seq", x, y>> : x \in l0, y \in l0}) IN UNION {Binary(us, l0), Binary(l0, us)}
+SREs0 == LET l0 == AtomsOf
+             l1 == UNION {l0, Unary(l0), Binary(l0, l0)}
+         IN  IF Level = 0 THEN l0
+             ELSE IF Level = 1 THEN l1
+             ELSE IF Level = 2 THEN UNION {l1, Unary(l1), Binary(l1, l0), Binary(l0, l1)}
+             ELSE IF Level = 3 THEN UNION {l1, Unary(l1), Binary(l1, l1)}
+             \* level 4: a unary operator over a two-element sequence, next to an atom (the "(op a b)" spellings)
+             ELSE IF Level = 4 THEN LET us == Unary({<<"seq", x, y>> : x \in l0, y \in l0}) IN UNION {Binary(us, l0), Binary(l0, us)}
+             ELSE UNION {Comb(n) : n \in ClassNames}
+SREs == IF Fam = "named" THEN {x \in SREs0 : WF(x)} ELSE SREs0
 
 Init == r \in SREs /\ s = <<>>
 Next == Len(s) < MaxLen /\ \E c \in Sigma : s' = Append(s, c) /\ r' = r
@@ -56,14 +78,42 @@ Laws == /\ Same(<<"star", <<"star", q>>>>, <<"star", q>>)
         /\ Same(<<"rep", 0, 1, q>>, <<"opt", q>>)
         /\ Same(<<"rep", 2, 3, q>>, <<"seq", q, <<"seq", q, <<"opt", q>>>>>>)
         /\ Same(<<"seq", q, Empty>>, Empty) /\ Same(<<"seq", Eps, q>>, q) /\ Same(<<"or", q, Empty>>, q)
-        /\ Same(Norm(<<"nocase", <<"nocase", r>>>>, FALSE), Norm(<<"nocase", r>>, FALSE))
-        /\ (\A sp \in Spans(s) : MatchD(q, s, sp[1], sp[2]) => MatchD(Norm(<<"nocase", r>>, FALSE), s, sp[1], sp[2]))
+        /\ Same(Norm(<<"nocase", <<"nocase", r>>>>, NoFl), Norm(<<"nocase", r>>, NoFl))
+        /\ (\A sp \in Spans(s) : MatchD(q, s, sp[1], sp[2]) => MatchD(Norm(<<"nocase", r>>, NoFl), s, sp[1], sp[2]))
+\* (3b) named classes and the char-set algebra against TLC's sets, over all of KnownChars
+Ext(e) == {c \in KnownChars : Cs0(e, FALSE, c)}
+Cl(nm) == Ext(<<"cls", nm>>)
+ClassLaws ==
+   /\ Cl("alphanumeric") = Cl("alphabetic") \cup Cl("numeric")
+   /\ Cl("lower-case") \cup Cl("upper-case") \subseteq Cl("alphabetic") /\ Cl("lower-case") \cap Cl("upper-case") = {}
+   /\ Cl("hex-digit") \subseteq Cl("ascii") \cap Cl("alphanumeric")
+   /\ Cl("punctuation") \cap Cl("alphanumeric") = {} /\ Cl("symbol") \cap (Cl("punctuation") \cup Cl("alphanumeric")) = {}
+   /\ Cl("whitespace") \cap (Cl("alphanumeric") \cup Cl("punctuation") \cup Cl("symbol")) = {}
+   /\ Cl("ascii") = 0..127 /\ NonAsciiKnown \cap (0..127) = {}
+   /\ \A c \in KnownChars : Variants(c) \subseteq KnownChars
+   /\ \A c \in Cl("lower-case") \cup Cl("upper-case") : Cardinality(Variants(c)) = 2
+   /\ Ext(<<"cnocase", <<"cls", "lower-case">>>>) = Ext(<<"cnocase", <<"cls", "upper-case">>>>)
+   /\ \A nm \in ClassNames : Ext(<<"cascii", <<"cls", nm>>>>) = Cl(nm) \cap (0..127)
+CsLaws ==
+   (IsCs(r) /\ s = <<>>) =>      \* depends on r only: evaluated once per SRE
+      /\ Ext(<<"ccompl", r>>) = KnownChars \ Ext(r)
+      /\ Ext(<<"ccompl", <<"ccompl", r>>>>) = Ext(r)
+      /\ (r[1] = "cor" => Ext(r) = Ext(r[2]) \cup Ext(r[3]))
+      /\ (r[1] = "cand" => Ext(r) = Ext(r[2]) \cap Ext(r[3]))
+      /\ (r[1] = "cdiff" => Ext(r) = Ext(r[2]) \ Ext(r[3]))
+      /\ (r[1] = "cor" => Ext(<<"ccompl", r>>) = Ext(<<"cand", <<"ccompl", r[2]>>, <<"ccompl", r[3]>>>>))
+      /\ (r[1] = "cand" => Ext(<<"ccompl", r>>) = Ext(<<"cor", <<"ccompl", r[2]>>, <<"ccompl", r[3]>>>>))
+      /\ Ext(<<"cnocase", r>>) = {c \in KnownChars : Variants(c) \cap Ext(r) # {}}
+      /\ Ext(<<"cnocase", <<"cnocase", r>>>>) = Ext(<<"cnocase", r>>)
+      /\ \A c \in Sigma : MatchD(Core(r), <<c>>, 0, 1) = (c \in Ext(r))
+      /\ \A c \in Sigma : MatchD(Core(<<"or", r, r>>), <<c>>, 0, 1) = (c \in Ext(r))
+      /\ \A c \in Sigma : MatchD(Core(<<"nocase", r>>), <<c>>, 0, 1) = (c \in Ext(<<"cnocase", r>>))
 \* (4) submatch bookkeeping: one entry per (sub ..) node; a report built from a real parse is accepted
-GroupsWF == WF(r) /\ Len(Groups(r, FALSE)) = NumSubs(r) /\ Depth(r) <= 3
+GroupsWF == WF(r) /\ Len(Groups(r, NoFl)) = NumSubs(r) /\ Depth(r) <= 3
 \* a whole-string match with every group unmatched or spanning everything that its body matches is an acceptable report
 ReportSound ==
    Matches(r, s) =>
-      LET G == Groups(r, FALSE)
+      LET G == Groups(r, NoFl)
           sp == [g \in 1..(1 + Len(G)) |-> IF g = 1 THEN <<0, n>>
                                            ELSE IF MatchD(G[g - 1], s, 0, n) THEN <<0, n>> ELSE Unmatched]
       IN  ReportOk(r, s, sp) /\ ~ReportOk(r, s, [sp EXCEPT ![1] = <<0, n + 1>>])
